@@ -312,6 +312,9 @@ func runC06(c *Ctx) {
 	c.rule("C06-R2", "MPT: in every dispatcher (cmd/glyph.createHandler's closure, pkg/server.Handler.ServeHTTP) each call of a handler derived from route.Handler also derives from applying the elements of route.Middlewares, and the fold's index range covers 0..len-1 (loop bounds evaluated at len=3)")
 	if ch := c.mustFn("C06-R2", glyphCmd, "createHandler"); ch != nil {
 		for _, cl := range innerClosures(ch) {
+			if cl.Parent() != ch || len(cl.Params) != 2 {
+				continue // nested helpers (e.g. the deferred recover) are not dispatchers
+			}
 			c.touched(cl)
 			foldsAllMiddlewares(c, "C06-R2", cl)
 		}
